@@ -77,6 +77,14 @@ def check_provenance(ms, labels, clusterer, pool_u, trained_labels, where):
         if np.any(mu < lo - 1e-9) or np.any(mu > hi + 1e-9):
             raise Violation(f"{where}: proposal mode {r} (mean {np.round(mu, 4).tolist()}) was not fitted from the particles of cluster {r} "
                             f"(their bounding box is [{np.round(lo, 4).tolist()}, {np.round(hi, 4).tolist()}])", sig={"kind": "mode-of-other-cluster"})
+        # ... and its scale cannot exceed the extent of those particles: the standard deviation of any sample drawn from the points of
+        # cluster r is at most the range of their coordinates (a mode fitted with particles of another cluster mixed in is far wider)
+        sd = np.sqrt(np.clip(np.diag(np.asarray(ms.covariances[r], dtype=float)), 0.0, None))
+        if np.any(sd > (hi - lo) + 1e-9):
+            j = int(np.argmax(sd - (hi - lo)))
+            raise Violation(f"{where}: proposal mode {r} has standard deviation {sd[j]:.4g} along coordinate {j}, more than the whole extent "
+                            f"{hi[j] - lo[j]:.4g} of the particles of cluster {r}: it was not fitted from the particles of that cluster alone",
+                            sig={"kind": "mode-of-other-cluster"})
         n_checked += 1
     return n_checked
 
@@ -295,6 +303,10 @@ def exec_run(case):
             cks = [f for f in cks]
             if cks:
                 f = cks[len(cks) // 2]
+                if case["seed"] % 2 == 1:
+                    # the rewound object resumes, when possible, at an iteration that is NOT a refit iteration of the cadence
+                    off = [c for c in cks if int(os.path.basename(c).split("_")[-1].split(".")[0]) % case["cluster_every"] != 0]
+                    f = off[len(off) // 2] if off else f
                 # a fresh sampler - or, in half of the cases, the SAME object (its trainer, resampler and clusterer have been used)
                 same_object = case["seed"] % 2 == 1
                 s2 = s if same_object else make_sampler(make_target(case), cfg, output_dir=od)
